@@ -53,6 +53,33 @@ fn wal_has_marker(dir: &Path, marker: &[u8]) -> (bool, usize) {
     (found, frames)
 }
 
+fn debug_dump_wal(dir: &Path) {
+    let wal_dir = dir.join("wal");
+    let mut segs: Vec<PathBuf> = std::fs::read_dir(&wal_dir).map(|d| d.filter_map(|e| e.ok()).map(|e| e.path()).collect()).unwrap_or_default();
+    segs.sort();
+    for s in segs {
+        let bytes = std::fs::read(&s).unwrap_or_default();
+        let stride = WAL_FRAME_HEADER_SIZE + PAGE;
+        eprintln!("segment {:?}: {} bytes", s.file_name(), bytes.len());
+        let mut off = 0;
+        while off + stride <= bytes.len() {
+            let hdr = &bytes[off..off + WAL_FRAME_HEADER_SIZE];
+            let page = &bytes[off + WAL_FRAME_HEADER_SIZE..off + stride];
+            let file_id = u64::from_le_bytes(hdr[0..8].try_into().unwrap());
+            let page_no = u32::from_le_bytes(hdr[8..12].try_into().unwrap());
+            let db_size = u32::from_le_bytes(hdr[12..16].try_into().unwrap());
+            let marks: Vec<String> = ["MK_h0_t0_", "MK_h0_t1_", "MK_h1_t0_", "seed"].iter().filter(|m| page.windows(m.len()).any(|w| w == m.as_bytes())).map(|m| m.to_string()).collect();
+            eprintln!("  frame@{off}: file_id={file_id:#x} page={page_no} db_size={db_size} cell_count={} markers={marks:?}", u16::from_le_bytes([page[2], page[3]]));
+            off += stride;
+        }
+    }
+    for f in ["root/t0.tbd", "root/t0.idx"] {
+        if let Ok(b) = std::fs::read(dir.join(f)) {
+            eprintln!("file {f}: {} bytes", b.len());
+        }
+    }
+}
+
 fn crc64(parts: &[&[u8]]) -> u64 {
     // CRC-64/ECMA-182: poly 0x42F0E1EBA9EA3693, init 0, no reflection, xorout 0
     static TABLE: std::sync::OnceLock<[u64; 256]> = std::sync::OnceLock::new();
@@ -180,7 +207,27 @@ fn scenario(name: &str, bound: usize, scratch: PathBuf, setup: Vec<String>, hand
                     icb.event(&format!("C37/{nm}/queue-not-quiescent"), "pending=0, flush_in_progress=false", &format!("pending={pending}, flush_in_progress={flushing}"));
                 }
                 let acked = acked.lock().unwrap().clone();
+                // ---- which committed rows does the LIVE database show? (a row lost before the crash is a
+                // concurrency defect of the DML path, not of log order: it gets its own signature and is
+                // not charged to recovery)
+                let mut live_missing: Vec<String> = Vec::new();
+                for (_h, _j, table, _key, marker) in &acked {
+                    let present = match db.query(&format!("SELECT * FROM {table} WHERE 1=1")) {
+                        Ok(rows) => rows.iter().any(|r| (0..r.column_count()).any(|i| matches!(r.get(i), Some(turdb::OwnedValue::Text(s)) if s.starts_with(marker.as_str())))),
+                        Err(_) => false,
+                    };
+                    if !present {
+                        live_missing.push(marker.clone());
+                    }
+                }
+                if !live_missing.is_empty() {
+                    icb.event(&format!("C38/{nm}/committed-row-missing-in-live-database"), "every acknowledged row visible before the crash", &format!("{live_missing:?} missing from the live table"));
+                }
+                let acked: Vec<_> = acked.into_iter().filter(|a| !live_missing.contains(&a.4)).collect();
                 // ---- crash + recovery (C38): process kill now
+                if std::env::var("C37_DEBUG").is_ok() {
+                    debug_dump_wal(&dir);
+                }
                 let crash = scratch.join(format!("{nm}-{n}-crash"));
                 let _ = std::fs::remove_dir_all(&crash);
                 copy_dir(&dir, &crash);
@@ -257,8 +304,9 @@ fn queue_scenario(name: &str, bound: usize, commits_per_thread: Vec<usize>, fail
                             let mut payload: CommitPayload = Default::default();
                             payload.push((id.0, id.1, buf, 1));
                             // ---- transcription of execute_small_commit's group-commit branch
-                            let ok = match q.submit_and_wait(payload) {
-                                Ok(_batch) => {
+                            let ok = match q.submit_and_wait_for_role(payload) {
+                                Ok((_batch, false)) => true, // completed by another leader: nothing to flush
+                                Ok((_batch, true)) => {
                                     let mut res = true;
                                     if let Some(pending) = q.take_pending() {
                                         let fail = {
@@ -349,13 +397,16 @@ fn scenarios(ctx: &Ctx) -> Vec<Scenario> {
     ];
     let s = ctx.scratch.clone();
     let mut v = Vec::new();
-    v.push(queue_scenario("queue-2-1", if q { 3 } else { 4 }, vec![2, 1], None));
-    if !q {
-        v.push(queue_scenario("queue-2x2", 3, vec![2, 2], None));
+    // the protocol-level scenarios only produce C37 verdicts
+    if ctx.property != "C38" {
+        v.push(queue_scenario("queue-2-1", if q { 3 } else { 4 }, vec![2, 1], None));
+        if !q {
+            v.push(queue_scenario("queue-2x2", 3, vec![2, 2], None));
+        }
+        v.push(queue_scenario("queue-2-1-1", if q { 2 } else { 3 }, vec![2, 1, 1], None));
+        v.push(queue_scenario("queue-2x2-fail-1st-flush", if q { 2 } else { 3 }, vec![2, 2], Some(1)));
+        v.push(queue_scenario("queue-2x2-fail-2nd-flush", if q { 2 } else { 3 }, vec![2, 2], Some(2)));
     }
-    v.push(queue_scenario("queue-2-1-1", if q { 2 } else { 3 }, vec![2, 1, 1], None));
-    v.push(queue_scenario("queue-2x2-fail-1st-flush", if q { 2 } else { 3 }, vec![2, 2], Some(1)));
-    v.push(queue_scenario("queue-2x2-fail-2nd-flush", if q { 2 } else { 3 }, vec![2, 2], Some(2)));
     v.extend(vec![
         scenario("2h-own-tables", if q { 1 } else { 2 }, s.clone(), setup_two.clone(), vec![vec![ins("t0", 1), ins("t0", 2)], vec![ins("t1", 1)]]),
         scenario("2h-same-table", if q { 1 } else { 2 }, s.clone(), setup_one.clone(), vec![vec![ins("t0", 1)], vec![ins("t0", 2)]]),
